@@ -1618,21 +1618,7 @@ Proof.
   rewrite E, E' in Hrel. discriminate Hrel.
 Qed.
 
-(* (7) addRowRational(const mpq_t pointer ...) with an explicit zero beyond the current columns *)
-Definition hist_gmp_zero : list op :=
-  [SetMode Auto; OR (RAddCol (dI 1, dI 0, dinf, [])); OQ (QAddRow true (0%Q, 1%Q, [(4, 0%Q)]))].
-Lemma gmp_zero_refutes :
-  valid_run rnd_impl init hist_gmp_zero = true /\ ~ InSync (run rnd_impl init hist_gmp_zero).
-Proof.
-  split; [vm_compute; reflexivity|].
-  intros (q & Hq & Hrel & _). apply ncols_rel in Hrel.
-  assert (option_map (@ncols Q) (ql (run rnd_impl init hist_gmp_zero)) = Some 5) as E by (vm_compute; reflexivity).
-  rewrite Hq in E. simpl in E. injection E as E.
-  assert (ncols (rl (run rnd_impl init hist_gmp_zero)) = 1) as E' by (vm_compute; reflexivity).
-  rewrite E, E' in Hrel. discriminate Hrel.
-Qed.
-
-(* (8) addColRational(const mpq_t pointer ...) after clearLPReal under OBJSENSE_MINIMIZE: the objective changes sign *)
+(* (7) addColRational(const mpq_t pointer ...) after clearLPReal under OBJSENSE_MINIMIZE: the objective changes sign *)
 Definition hist_gmp_sense : list op :=
   [SetSense false; SetMode Auto; OR (RAddCol (dI 1, dI 0, dinf, [])); OR RClear; OQ (QAddCol true (5%Q, 0%Q, 1%Q, []))].
 Lemma gmp_sense_refutes :
@@ -1646,4 +1632,157 @@ Proof.
   destruct Hrel as [_ _ Hm _ _ _ _ _]. rewrite E, E' in Hm.
   inversion Hm as [|? ? ? ? H1 _]; subst.
   revert H1. apply (not_adj_between _ _ (dI 0)); [reflexivity|]. split; vm_compute; [reflexivity|discriminate].
+Qed.
+
+(* ====================================================== an oracle that satisfies the adjacency hypothesis *)
+(* truncation towards zero, saturating at the largest double; computed on the integer grid 2^-1074 *)
+Local Open Scope Z_scope.
+Definition scale (d : dy) : Z := fst d * 2 ^ (snd d + 1074).
+Definition trunc_pos (n : Z) (dp : positive) : dy :=
+  let N := (n * 2 ^ 1074) / Zpos dp in
+  let s := Z.max 0 (Z.log2 N - 52) in
+  if s <=? 2045 then (N / 2 ^ s, s - 1074) else (2 ^ 53 - 1, 971).
+Definition rnd_sat (k : rkind) (q : Q) : dy :=
+  if 0 <=? Qnum q then trunc_pos (Qnum q) (Qden q) else dneg (trunc_pos (- Qnum q) (Qden q)).
+
+Lemma d2q_scale d : -1074 <= snd d -> (d2q d * inject_Z (2 ^ 1074) == inject_Z (scale d))%Q.
+Proof.
+  destruct d as [m e]. unfold d2q, scale. cbn [fst snd]. intros He. destruct (Z.leb_spec 0 e) as [H|H].
+  - rewrite <- inject_Z_mult. rewrite Z.pow_add_r by lia. rewrite Z.mul_assoc. reflexivity.
+  - unfold Qeq, Qmult, inject_Z. cbn [Qnum Qden]. rewrite Pos.mul_1_r.
+    assert (0 < 2 ^ (- e)) as P by (apply Z.pow_pos_nonneg; lia).
+    rewrite Z2Pos.id by exact P. rewrite Z.mul_1_r. rewrite <- Z.mul_assoc. f_equal.
+    rewrite <- Z.pow_add_r by lia. f_equal. lia.
+Qed.
+
+Lemma pow1074_pos : (0 < inject_Z (2 ^ 1074))%Q.
+Proof. unfold Qlt, inject_Z. simpl. lia. Qed.
+
+Lemma scale_lt a b : -1074 <= snd a -> -1074 <= snd b -> (d2q a < d2q b)%Q -> scale a < scale b.
+Proof.
+  intros Ha Hb H. pose proof (d2q_scale a Ha) as Ea. pose proof (d2q_scale b Hb) as Eb.
+  pose proof pow1074_pos as P.
+  assert (inject_Z (scale a) < inject_Z (scale b))%Q as L.
+  { rewrite <- Ea, <- Eb. apply Qmult_lt_compat_r; auto. }
+  rewrite <- Zlt_Qlt in L. exact L.
+Qed.
+
+Lemma scale_le_floor d n dp : -1074 <= snd d -> (d2q d <= n # dp)%Q -> scale d <= (n * 2 ^ 1074) / Zpos dp.
+Proof.
+  intros Hd H. pose proof (d2q_scale d Hd) as E. pose proof pow1074_pos as P.
+  assert (inject_Z (scale d) <= (n # dp) * inject_Z (2 ^ 1074))%Q as L.
+  { rewrite <- E. apply Qmult_le_compat_r; auto. apply Qlt_le_weak; auto. }
+  unfold Qle, Qmult, inject_Z in L. cbn [Qnum Qden] in L. rewrite Pos.mul_1_r, Z.mul_1_r in L.
+  apply Z.div_le_lower_bound; lia.
+Qed.
+
+Lemma floor_le_q d n dp : -1074 <= snd d -> scale d <= (n * 2 ^ 1074) / Zpos dp -> (d2q d <= n # dp)%Q.
+Proof.
+  intros Hd H. pose proof (d2q_scale d Hd) as E. pose proof pow1074_pos as P.
+  assert (inject_Z (scale d) <= (n # dp) * inject_Z (2 ^ 1074))%Q as L.
+  { unfold Qle, Qmult, inject_Z. cbn [Qnum Qden]. rewrite Pos.mul_1_r, Z.mul_1_r.
+    pose proof (Z.mul_div_le (n * 2 ^ 1074) (Zpos dp) ltac:(lia)) as M. nia. }
+  rewrite <- E in L. apply Qmult_le_r in L; auto.
+Qed.
+
+(* no double lies strictly between the truncation of N to 53 significant bits and N (on the grid 2^-1074) *)
+Lemma trunc_core N m' k : 0 <= N -> Z.abs m' < 2 ^ 53 -> 0 <= k ->
+  let s := Z.max 0 (Z.log2 N - 52) in
+  ~ ((N / 2 ^ s) * 2 ^ s < m' * 2 ^ k /\ m' * 2 ^ k <= N).
+Proof.
+  intros HN Hm Hk s [H1 H2].
+  assert (0 <= s) as Hs by (unfold s; lia).
+  assert (0 < 2 ^ s) as Ps by (apply Z.pow_pos_nonneg; lia).
+  destruct (Z.le_gt_cases s k) as [C|C].
+  - replace k with ((k - s) + s) in H1, H2 by lia. rewrite Z.pow_add_r in H1, H2 by lia.
+    rewrite Z.mul_assoc in H1, H2. set (x := m' * 2 ^ (k - s)) in *.
+    assert (x <= N / 2 ^ s) as L by (apply Z.div_le_lower_bound; lia). nia.
+  - assert (s = Z.log2 N - 52) as Es by (unfold s in *; lia).
+    assert (0 < N) as PN. { destruct (Z.eq_dec N 0) as [->|]; [simpl in Es; lia|lia]. }
+    pose proof (Z.log2_spec N PN) as [L1 L2].
+    assert (2 ^ 52 * 2 ^ s <= N) as B. { rewrite <- Z.pow_add_r by lia. replace (52 + s) with (Z.log2 N) by lia. exact L1. }
+    assert (2 ^ 52 <= N / 2 ^ s) as B' by (apply Z.div_le_lower_bound; lia).
+    assert (2 ^ k <= 2 ^ (s - 1)) as Pk by (apply Z.pow_le_mono_r; lia).
+    assert (2 ^ s = 2 * 2 ^ (s - 1)) as E2. { replace s with (1 + (s - 1)) at 1 by lia. rewrite Z.pow_add_r by lia. reflexivity. }
+    assert (0 < 2 ^ k) as Pk' by (apply Z.pow_pos_nonneg; lia).
+    assert (m' < 2 ^ 53) as Hm' by lia.
+    assert (m' * 2 ^ k <= 2 ^ 52 * 2 ^ s) as U.
+    { destruct (Z.le_gt_cases m' 0) as [Q|Q]; [nia|].
+      apply Z.le_trans with (2 ^ 53 * 2 ^ (s - 1)); [nia|]. rewrite E2. change (2 ^ 53) with (2 * 2 ^ 52). lia. }
+    nia.
+Qed.
+
+Lemma trunc_small N : 0 <= N -> let s := Z.max 0 (Z.log2 N - 52) in 0 <= N / 2 ^ s < 2 ^ 53.
+Proof.
+  intros HN s. assert (0 <= s) as Hs by (unfold s; lia).
+  assert (0 < 2 ^ s) as Ps by (apply Z.pow_pos_nonneg; lia).
+  split. { apply Z.div_pos; lia. }
+  destruct (Z.eq_dec N 0) as [->|NZ]. { rewrite Z.div_0_l by lia. reflexivity. }
+  pose proof (Z.log2_spec N ltac:(lia)) as [L1 L2].
+  apply Z.div_lt_upper_bound; [lia|].
+  rewrite <- Z.pow_add_r by lia.
+  apply Z.lt_le_trans with (2 ^ Z.succ (Z.log2 N)); auto.
+  apply Z.pow_le_mono_r; unfold s; lia.
+Qed.
+
+Lemma trunc_pos_adj n dp : 0 <= n -> adj (trunc_pos n dp) (n # dp).
+Proof.
+  intros Hn. unfold trunc_pos.
+  set (N := (n * 2 ^ 1074) / Zpos dp). set (s := Z.max 0 (Z.log2 N - 52)).
+  assert (0 <= N) as HN by (unfold N; apply Z.div_pos; lia).
+  assert (0 <= s) as Hs by (unfold s; lia).
+  assert (0 < 2 ^ s) as Ps by (apply Z.pow_pos_nonneg; lia).
+  destruct (Z.leb_spec s 2045) as [C|C].
+  - pose proof (trunc_small N HN) as T. fold s in T.
+    assert (is_double (N / 2 ^ s, s - 1074)) as D.
+    { unfold is_double, is_doubleb. destruct T as [T1 T2]. rewrite Z.abs_eq by exact T1.
+      rewrite (proj2 (Z.ltb_lt _ _) T2).
+      assert (-1074 <=? s - 1074 = true) as A1 by (apply Z.leb_le; lia).
+      assert (s - 1074 <=? 971 = true) as A2 by (apply Z.leb_le; lia).
+      rewrite A1, A2. reflexivity. }
+    assert (scale (N / 2 ^ s, s - 1074) = (N / 2 ^ s) * 2 ^ s) as Esc.
+    { unfold scale. cbn [fst snd]. f_equal. f_equal. lia. }
+    assert (d2q (N / 2 ^ s, s - 1074)%Z <= n # dp)%Q as Le.
+    { apply floor_le_q; [cbn [snd]; lia|]. rewrite Esc. fold N. rewrite Z.mul_comm. apply Z.mul_div_le. lia. }
+    split; auto. intros [m' e'] Hd'. unfold is_double, is_doubleb in Hd'.
+    apply andb_prop in Hd' as [Hd' H3]. apply andb_prop in Hd' as [H1 H2].
+    apply Z.ltb_lt in H1. apply Z.leb_le in H2. apply Z.leb_le in H3.
+    split; intros [X Y].
+    + apply scale_lt in X; [|cbn [snd]; lia|cbn [snd]; lia].
+      apply scale_le_floor in Y; [|cbn [snd]; lia]. fold N in Y. rewrite Esc in X.
+      unfold scale in X, Y. cbn [fst snd] in X, Y.
+      apply (trunc_core N m' (e' + 1074)); auto; try lia.
+    + lra.
+  - (* saturation *)
+    assert (is_double (2 ^ 53 - 1, 971)) as D by reflexivity.
+    assert (Z.log2 N > 2097) as LN by (unfold s in C; lia).
+    assert (0 < N) as PN. { destruct (Z.eq_dec N 0) as [E|]; [rewrite E in LN; simpl in LN; lia|lia]. }
+    pose proof (Z.log2_spec N PN) as [L1 L2].
+    assert (2 ^ 2098 <= N) as Big. { apply Z.le_trans with (2 ^ Z.log2 N); auto. apply Z.pow_le_mono_r; lia. }
+    assert (scale (2 ^ 53 - 1, 971) = (2 ^ 53 - 1) * 2 ^ 2045) as Esc by reflexivity.
+    assert (d2q (2 ^ 53 - 1, 971)%Z <= n # dp)%Q as Le.
+    { apply floor_le_q; [cbn [snd]; lia|]. rewrite Esc. fold N.
+      apply Z.le_trans with (2 ^ 2098); auto. change (2 ^ 2098) with (2 ^ 53 * 2 ^ 2045).
+      assert (0 < 2 ^ 2045) by (apply Z.pow_pos_nonneg; lia). nia. }
+    split; auto. intros [m' e'] Hd'. unfold is_double, is_doubleb in Hd'.
+    apply andb_prop in Hd' as [Hd' H3]. apply andb_prop in Hd' as [H1 H2].
+    apply Z.ltb_lt in H1. apply Z.leb_le in H2. apply Z.leb_le in H3.
+    split; intros [X Y].
+    + apply scale_lt in X; [|cbn [snd]; lia|cbn [snd]; lia]. rewrite Esc in X.
+      unfold scale in X. cbn [fst snd] in X.
+      assert (2 ^ (e' + 1074) <= 2 ^ 2045) as Pk by (apply Z.pow_le_mono_r; lia).
+      assert (0 < 2 ^ (e' + 1074)) as Pk' by (apply Z.pow_pos_nonneg; lia).
+      assert (m' <= 2 ^ 53 - 1) by lia.
+      destruct (Z.le_gt_cases m' 0) as [Q|Q]; [nia|].
+      assert (m' * 2 ^ (e' + 1074) <= (2 ^ 53 - 1) * 2 ^ 2045) by (apply Z.mul_le_mono_nonneg; lia). lia.
+    + lra.
+Qed.
+
+Theorem rnd_sat_adj : forall k q, adj (rnd_sat k q) q.
+Proof.
+  intros k [n dp]. unfold rnd_sat. cbn [Qnum Qden]. destruct (Z.leb_spec 0 n) as [H|H].
+  - now apply trunc_pos_adj.
+  - apply (adj_Qeq _ (- (- n # dp))%Q).
+    + unfold Qeq, Qopp. cbn [Qnum Qden]. lia.
+    + apply adj_neg. apply trunc_pos_adj. lia.
 Qed.
